@@ -7,6 +7,7 @@ See DESIGN.md 1.1-1.3.
 
 from __future__ import annotations
 
+import gc
 import io as _io
 import os
 import re
@@ -127,6 +128,8 @@ class World:
         self.root = getcurrent()
         self.exploring = False
         self.teardown = False
+        self.gc_mask = None  # statements at which "the cyclic GC runs now" is an environment choice
+        self.in_gc = False
         self.steps = 0
         self.horizon = horizon
         self.capped = False
@@ -411,6 +414,16 @@ def _vp_hook(k: int) -> None:
         exc = me.pending
         me.pending = None
         raise exc
+    g = w.gc_mask
+    if g is not None and w.exploring and k < len(g) and g[k] and not w.in_gc:
+        # the cyclic collector may run at any allocation: an environment deviation at this statement
+        if w.env_choice(2, "gc"):
+            w.in_gc = True
+            try:
+                w.log("gc", me.name, instrument.point_name(k))
+                gc.collect()
+            finally:
+                w.in_gc = False
     m = w.stmt_mask
     if m is None or not w.exploring or k >= len(m) or not m[k]:
         return
